@@ -42,7 +42,14 @@ type typeEntry struct {
 	Header func(http.Header, ...binding.Option) (any, error)
 	Cookie func([]*http.Cookie, ...binding.Option) (any, error)
 	Bind   func(...binding.Option) (any, error)
-	Ty     string
+	// the same through a reusable Binder object
+	QueryWith  func(*binding.Binder, url.Values) (any, error)
+	PathWith   func(*binding.Binder, map[string]string) (any, error)
+	FormWith   func(*binding.Binder, url.Values) (any, error)
+	HeaderWith func(*binding.Binder, http.Header) (any, error)
+	CookieWith func(*binding.Binder, []*http.Cookie) (any, error)
+	BindWith   func(*binding.Binder, ...binding.Option) (any, error)
+	Ty         string
 }
 
 var tagNames = []string{"query", "path", "form", "header", "cookie"}
@@ -265,7 +272,8 @@ type corpusType struct {
 }
 
 var types []*corpusType
-var reqTypes []*corpusType // the request-shaped tail of the corpus (gen_types.py ReqGen)
+var reqTypes []*corpusType   // the request-shaped part of the corpus (gen_types.py ReqGen)
+var namedTypes []*corpusType // the types over defined scalar types (gen_types.py NamedGen)
 var typeByName = map[string]*corpusType{}
 
 func collectDefaults(n *tyNode, out *[]string) {
@@ -301,7 +309,10 @@ func loadCorpus() {
 		}
 		collectDefaults(node, &ct.Dflts)
 		types = append(types, ct)
-		if i >= 400 {
+		switch {
+		case i >= 480:
+			namedTypes = append(namedTypes, ct)
+		case i >= 400:
 			reqTypes = append(reqTypes, ct)
 		}
 		typeByName[e.Name] = ct
@@ -313,6 +324,33 @@ func loadCorpus() {
 type optsT struct {
 	MaxDepth, MaxSlice, MaxMap int // -1 = leave the default
 	CSV, BaseAuto              bool
+	Layouts                    []string // WithTimeLayouts (nil = leave the default)
+}
+
+// over returns o with the settings of the per-call options c applied on top (later options win).
+func (o optsT) over(c *optsT) optsT {
+	if c == nil {
+		return o
+	}
+	if c.MaxDepth >= 0 {
+		o.MaxDepth = c.MaxDepth
+	}
+	if c.MaxSlice >= 0 {
+		o.MaxSlice = c.MaxSlice
+	}
+	if c.MaxMap >= 0 {
+		o.MaxMap = c.MaxMap
+	}
+	if c.CSV {
+		o.CSV = true
+	}
+	if c.BaseAuto {
+		o.BaseAuto = true
+	}
+	if c.Layouts != nil {
+		o.Layouts = c.Layouts
+	}
+	return o
 }
 
 type caseT struct {
@@ -325,6 +363,8 @@ type caseT struct {
 	Srcs    []srcCase   // entry B: the sources of a Bind / BindTo call, in order
 	Gen     bool        // entry B: the generic Bind[T] instead of BindTo
 	Via     string      // entry A: only (BindOnly), bind (Bind), must (MustBind)
+	Binder  bool        // through a reusable Binder built with Opts (QueryWith/…To methods/BindWith/Binder.BindTo)
+	Call    *optsT      // entries B through a Binder: per-call options on top of the Binder's
 	NT      bool        // carries a boundary / out-of-range / malformed value (for the non-triviality rule)
 }
 
@@ -428,6 +468,9 @@ func genValue(r *hx.Rand, prim string, bad bool) (string, bool) {
 		return hx.Pick(r, strPool), false
 	case 't':
 		if !bad {
+			if r.Chance(1, 6) {
+				return hx.Pick(r, []string{"01/15/2024", "2024.01.15", "Jan 2 2024"}), true // only with WithTimeLayouts
+			}
 			return hx.Pick(r, timePool), false
 		}
 		return hx.Pick(r, timeBad), true
@@ -453,11 +496,17 @@ func genOpts(r *hx.Rand) optsT {
 	}
 	o.CSV = r.Chance(3, 20)
 	o.BaseAuto = r.Chance(3, 20)
+	if r.Chance(1, 8) {
+		o.Layouts = hx.Pick(r, [][]string{{"01/02/2006"}, {"2006.01.02", "Jan 2 2006"}, {}})
+	}
 	return o
 }
 
 func genCase(r *hx.Rand) caseT {
 	ct := hx.Pick(r, types)
+	if len(namedTypes) > 0 && r.Chance(1, 8) {
+		ct = hx.Pick(r, namedTypes)
+	}
 	c := caseT{T: ct.E.Name, Tag: r.Intn(5), Opts: genOpts(r)}
 	switch k := r.Intn(20); {
 	case k < 8:
@@ -470,9 +519,27 @@ func genCase(r *hx.Rand) caseT {
 	if c.Entry != "G" && r.Chance(7, 10) && (c.Entry == "T" || r.Chance(1, 2)) {
 		c.Prefill = r.U64() | 1
 	}
+	if r.Chance(1, 4) {
+		// through a reusable Binder: options at construction time, lowered limits more often than not
+		c.Binder = true
+		if r.Chance(1, 2) {
+			c.Opts.MaxSlice = r.Range(1, 3)
+		}
+		if r.Chance(1, 3) {
+			c.Opts.MaxMap = r.Range(1, 3)
+		}
+		if r.Chance(1, 4) {
+			c.Opts.MaxDepth = r.Range(0, 4)
+		}
+		if c.Entry == "B" && r.Chance(1, 3) {
+			call := genOpts(r) // per-call options on top of the Binder's
+			c.Call = &call
+		}
+	}
 	if c.Entry == "B" && r.Chance(1, 4) {
 		// app.Context.BindOnly: path, query, header, cookie of one request, in that order
 		c.Entry = "A"
+		c.Binder, c.Call = false, nil
 		c.Via = hx.Pick(r, []string{"only", "bind", "bind", "must"})
 		if r.Chance(3, 5) && len(reqTypes) > 0 {
 			// request-shaped types: one source per field, defaults that only that source's pass can apply
@@ -725,6 +792,9 @@ func (o optsT) options() []binding.Option {
 	if o.BaseAuto {
 		out = append(out, binding.WithIntBaseAuto())
 	}
+	if o.Layouts != nil {
+		out = append(out, binding.WithTimeLayouts(o.Layouts...))
+	}
 	return out
 }
 
@@ -895,12 +965,17 @@ var timeLayouts = []string{time.RFC3339, time.RFC3339Nano, time.DateOnly, time.D
 	// the default custom layouts of the package (binding.DefaultTimeLayouts)
 	time.RFC3339, time.RFC3339Nano, time.DateOnly, time.DateTime, "2006-01-02T15:04:05"}
 
-func refParseTime(s string) (string, bool) {
+func refParseTime(s string, custom []string) (string, bool) {
 	s = strings.TrimSpace(s)
 	if s == "" {
 		return "", false
 	}
-	for _, f := range timeLayouts {
+	layouts := timeLayouts
+	if custom != nil {
+		// WithTimeLayouts replaces the package's custom list; the ten built-in formats stay in front
+		layouts = append(append([]string(nil), timeLayouts[:10]...), custom...)
+	}
+	for _, f := range layouts {
 		if t, err := time.Parse(f, s); err == nil {
 			return t.Format(time.RFC3339Nano), true
 		}
@@ -908,7 +983,7 @@ func refParseTime(s string) (string, bool) {
 	return "", false
 }
 
-func tableEntry(l *hx.Line, s string, extra *[]string) {
+func tableEntry(l *hx.Line, s string, extra *[]string, layouts []string) {
 	l.Str(s)
 	for _, base := range []int{10, 0} {
 		if i, err := strconv.ParseInt(s, base, 64); err == nil {
@@ -932,7 +1007,7 @@ func tableEntry(l *hx.Line, s string, extra *[]string) {
 	} else {
 		l.Bool(false)
 	}
-	if t, ok := refParseTime(s); ok {
+	if t, ok := refParseTime(s, layouts); ok {
 		l.Bool(true).Str(t)
 	} else {
 		l.Bool(false)
@@ -995,23 +1070,11 @@ func run(ct *corpusType, c *caseT, s *srcT, dest any) (res any, err error, panic
 		}
 	}()
 	o := c.Opts.options()
+	if c.Binder {
+		return runBinder(ct, c, s, dest)
+	}
 	if c.Entry == "B" {
-		var from []binding.Option
-		for _, sc := range c.Srcs {
-			b := buildSrc(sc.Tag, sc.KV)
-			switch sc.Tag {
-			case 0:
-				from = append(from, binding.FromQuery(b.vals))
-			case 1:
-				from = append(from, binding.FromPath(b.path))
-			case 2:
-				from = append(from, binding.FromForm(b.vals))
-			case 3:
-				from = append(from, binding.FromHeader(b.hdr))
-			case 4:
-				from = append(from, binding.FromCookie(b.cookies))
-			}
-		}
+		from := fromOptions(c)
 		from = append(from, o...)
 		if c.Gen {
 			res, err = ct.E.Bind(from...)
@@ -1116,6 +1179,88 @@ func runApp(c *caseT, dest any, again func() any) (srcs []*srcT, tags []int, err
 	return
 }
 
+// binders are reusable: one per option set for the whole run (as an application would keep them)
+var binders = map[string]*binding.Binder{}
+
+func binderFor(o optsT) *binding.Binder {
+	k := fmt.Sprintf("%+v", o)
+	if b, ok := binders[k]; ok {
+		return b
+	}
+	b, err := binding.New(o.options()...)
+	if err != nil {
+		panic(err)
+	}
+	binders[k] = b
+	return b
+}
+
+func fromOptions(c *caseT) []binding.Option {
+	var from []binding.Option
+	for _, sc := range c.Srcs {
+		b := buildSrc(sc.Tag, sc.KV)
+		switch sc.Tag {
+		case 0:
+			from = append(from, binding.FromQuery(b.vals))
+		case 1:
+			from = append(from, binding.FromPath(b.path))
+		case 2:
+			from = append(from, binding.FromForm(b.vals))
+		case 3:
+			from = append(from, binding.FromHeader(b.hdr))
+		case 4:
+			from = append(from, binding.FromCookie(b.cookies))
+		}
+	}
+	return from
+}
+
+// runBinder: the same binds through a Binder object — QueryWith[T] … / Binder.QueryTo … for one source,
+// BindWith[T] / Binder.BindTo (config cloned per call, per-call options on top) for several.
+func runBinder(ct *corpusType, c *caseT, s *srcT, dest any) (res any, err error, panicked bool) {
+	b := binderFor(c.Opts)
+	switch c.Entry {
+	case "B":
+		from := fromOptions(c)
+		if c.Call != nil {
+			from = append(from, c.Call.options()...)
+		}
+		if c.Gen {
+			res, err = ct.E.BindWith(b, from...)
+			return
+		}
+		err = b.BindTo(dest, from...)
+		return dest, err, false
+	case "G":
+		switch c.Tag {
+		case 0:
+			res, err = ct.E.QueryWith(b, s.vals)
+		case 1:
+			res, err = ct.E.PathWith(b, s.path)
+		case 2:
+			res, err = ct.E.FormWith(b, s.vals)
+		case 3:
+			res, err = ct.E.HeaderWith(b, s.hdr)
+		case 4:
+			res, err = ct.E.CookieWith(b, s.cookies)
+		}
+		return
+	}
+	switch c.Tag {
+	case 0:
+		err = b.QueryTo(s.vals, dest)
+	case 1:
+		err = b.PathTo(s.path, dest)
+	case 2:
+		err = b.FormTo(s.vals, dest)
+	case 3:
+		err = b.HeaderTo(s.hdr, dest)
+	case 4:
+		err = b.CookieTo(s.cookies, dest)
+	}
+	return dest, err, false
+}
+
 func emit(id string, c caseT, st *hx.Stats) string {
 	ct := typeByName[c.T]
 	if ct == nil {
@@ -1159,8 +1304,9 @@ func emit(id string, c caseT, st *hx.Stats) string {
 			return "# " + id + " discarded: the request did not reach the handler"
 		}
 	}
-	md, ms, mm := c.Opts.effective()
-	l := hx.NewLine(id).Tok(c.Entry).Nat(c.Tag).Nat(md).Nat(ms).Nat(mm).Bool(c.Opts.CSV).Bool(c.Opts.BaseAuto)
+	eff := c.Opts.over(c.Call) // what the bind runs with: the Binder's / call's options, per-call ones on top
+	md, ms, mm := eff.effective()
+	l := hx.NewLine(id).Tok(c.Entry).Nat(c.Tag).Nat(md).Nat(ms).Nat(mm).Bool(eff.CSV).Bool(eff.BaseAuto)
 	ct.Node.tokens(l)
 	l.Tok(strings.TrimSpace(il.String()))
 	// source(s) as the model sees them
@@ -1200,7 +1346,7 @@ func emit(id string, c caseT, st *hx.Stats) string {
 	n := 0
 	for i := 0; i < len(strs); i++ {
 		var extra []string
-		tableEntry(tl, strs[i], &extra)
+		tableEntry(tl, strs[i], &extra, eff.Layouts)
 		n++
 		for _, e := range extra {
 			note(e)
@@ -1266,6 +1412,15 @@ func emit(id string, c caseT, st *hx.Stats) string {
 		if c.Prefill != 0 {
 			st.Count("prefilled")
 		}
+		if c.Binder {
+			st.Count("binder_" + c.Entry)
+			if c.Call != nil {
+				st.Count("binder_call_options")
+			}
+		}
+		if eff.Layouts != nil {
+			st.Count("opt_time_layouts")
+		}
 		if c.Opts.CSV {
 			st.Count("opt_csv")
 		}
@@ -1290,7 +1445,7 @@ func fixedCases() []caseT {
 		for _, lf := range ct.Shapes[0].Leaves {
 			if v, ok := want[lf.Prim]; ok && lf.Kind == "prim" && !done[lf.Prim] && !lf.Nested {
 				done[lf.Prim] = true
-				out = append(out, caseT{T: ct.E.Name, Tag: 0, Entry: "G", Opts: optsT{-1, -1, -1, false, false}, Src: [][2]string{{lf.Keys[0], v}}, NT: true})
+				out = append(out, caseT{T: ct.E.Name, Tag: 0, Entry: "G", Opts: optsT{-1, -1, -1, false, false, nil}, Src: [][2]string{{lf.Keys[0], v}}, NT: true})
 			}
 		}
 	}
@@ -1301,7 +1456,7 @@ func fixedCases() []caseT {
 		if sh.EmbedDepth < 3 || k >= 6 {
 			continue
 		}
-		c := caseT{T: ct.E.Name, Tag: 0, Entry: "G", Opts: optsT{-1, -1, -1, false, false}, NT: true}
+		c := caseT{T: ct.E.Name, Tag: 0, Entry: "G", Opts: optsT{-1, -1, -1, false, false, nil}, NT: true}
 		for _, lf := range sh.Leaves {
 			switch lf.Prim[0] {
 			case 'i', 'u', 'f':
@@ -1320,7 +1475,7 @@ func fixedCases() []caseT {
 	for _, ct := range types {
 		for _, lf := range ct.Shapes[0].Leaves {
 			if lf.Kind == "slice" && len(lf.Keys) > 1 && lf.Prim == "s" && k < 2 {
-				out = append(out, caseT{T: ct.E.Name, Tag: 0, Entry: "G", Opts: optsT{-1, -1, -1, false, false},
+				out = append(out, caseT{T: ct.E.Name, Tag: 0, Entry: "G", Opts: optsT{-1, -1, -1, false, false, nil},
 					Src: [][2]string{{lf.Keys[1], "a"}, {lf.Keys[1], "b"}}, NT: true})
 				k++
 			}
@@ -1332,7 +1487,7 @@ func fixedCases() []caseT {
 			continue
 		}
 		if lf := ct.Shapes[0].Leaves[0]; lf.Kind == "map" && lf.Prim[0] == 'i' {
-			out = append(out, caseT{T: ct.E.Name, Tag: 0, Entry: "G", Opts: optsT{-1, -1, 1, false, false}, Src: [][2]string{{lf.Keys[0], `{"a":1,"b":2}`}}, NT: true})
+			out = append(out, caseT{T: ct.E.Name, Tag: 0, Entry: "G", Opts: optsT{-1, -1, 1, false, false, nil}, Src: [][2]string{{lf.Keys[0], `{"a":1,"b":2}`}}, NT: true})
 			break
 		}
 	}
@@ -1348,7 +1503,7 @@ func fixedCases() []caseT {
 			}
 			for _, h := range ct.Shapes[3].Leaves {
 				if h.Path == q.Path {
-					out = append(out, caseT{T: ct.E.Name, Entry: "B", Opts: optsT{-1, -1, -1, false, false}, NT: true,
+					out = append(out, caseT{T: ct.E.Name, Entry: "B", Opts: optsT{-1, -1, -1, false, false, nil}, NT: true,
 						Srcs: []srcCase{{Tag: 0, KV: [][2]string{{q.Keys[0], "7"}}}, {Tag: 3, KV: nil}}})
 					found = true
 					break
@@ -1367,7 +1522,39 @@ func fixedCases() []caseT {
 		found := false
 		for _, lf := range ct.Shapes[0].Leaves {
 			if lf.Kind == "map" && lf.Prim == "s" && !lf.Nested {
-				out = append(out, caseT{T: ct.E.Name, Tag: 0, Entry: "G", Opts: optsT{-1, -1, 1, false, false}, Src: [][2]string{{lf.Keys[0], `{"a":"x","b":"y"}`}}, NT: true})
+				out = append(out, caseT{T: ct.E.Name, Tag: 0, Entry: "G", Opts: optsT{-1, -1, 1, false, false, nil}, Src: [][2]string{{lf.Keys[0], `{"a":"x","b":"y"}`}}, NT: true})
+				found = true
+				break
+			}
+		}
+		if found {
+			break
+		}
+	}
+	// a map over a defined string type with a dot key (the stored value must have the named type), and a
+	// slice limit set on a Binder and exceeded through Binder.BindTo / BindWith
+	for _, ct := range namedTypes {
+		found := false
+		for _, lf := range ct.Shapes[0].Leaves {
+			if lf.Kind == "map" && lf.Prim == "s" && !lf.Nested {
+				out = append(out, caseT{T: ct.E.Name, Tag: 0, Entry: "G", Opts: optsT{-1, -1, -1, false, false, nil}, Src: [][2]string{{lf.Keys[0] + ".env", "prod"}, {lf.Keys[0] + "[tier]", "gold"}}, NT: true})
+				found = true
+				break
+			}
+		}
+		if found {
+			break
+		}
+	}
+	for _, ct := range types {
+		found := false
+		for _, lf := range ct.Shapes[0].Leaves {
+			if lf.Kind == "slice" && lf.Prim == "s" && !lf.Nested {
+				kv := [][2]string{{lf.Keys[0], "a"}, {lf.Keys[0], "b"}, {lf.Keys[0], "c"}}
+				for _, gen := range []bool{false, true} {
+					out = append(out, caseT{T: ct.E.Name, Entry: "B", Binder: true, Gen: gen, Opts: optsT{-1, 2, -1, false, false, nil}, NT: true,
+						Srcs: []srcCase{{Tag: 0, KV: kv}}})
+				}
 				found = true
 				break
 			}
@@ -1384,13 +1571,13 @@ func fixedCases() []caseT {
 			switch {
 			case lf.Kind == "ptrslice" && lf.Prim == "s" && !e:
 				e = true
-				out = append(out, caseT{T: ct.E.Name, Tag: 0, Entry: "G", Opts: optsT{-1, -1, -1, false, false}, Src: [][2]string{{lf.Keys[0], "a"}}, NT: true})
+				out = append(out, caseT{T: ct.E.Name, Tag: 0, Entry: "G", Opts: optsT{-1, -1, -1, false, false, nil}, Src: [][2]string{{lf.Keys[0], "a"}}, NT: true})
 			case lf.Kind == "map" && !lf.Nested && !g:
 				g = true
-				out = append(out, caseT{T: ct.E.Name, Tag: 0, Entry: "G", Opts: optsT{-1, -1, 3, false, false}, NT: true})
+				out = append(out, caseT{T: ct.E.Name, Tag: 0, Entry: "G", Opts: optsT{-1, -1, 3, false, false, nil}, NT: true})
 			case lf.Kind == "map" && lf.Nested && lf.Prim == "s" && !f:
 				f = true
-				out = append(out, caseT{T: ct.E.Name, Tag: 0, Entry: "G", Opts: optsT{-1, -1, -1, false, false}, Src: [][2]string{{lf.Keys[0] + ".a", "v"}}, NT: true})
+				out = append(out, caseT{T: ct.E.Name, Tag: 0, Entry: "G", Opts: optsT{-1, -1, -1, false, false, nil}, Src: [][2]string{{lf.Keys[0] + ".a", "v"}}, NT: true})
 			}
 		}
 	}
